@@ -895,15 +895,22 @@ func ruleInitDefault(c *Ctx) []Ob {
 		s.undec("kinds", "-", err.Error())
 		return s.obs
 	}
-	dt := c.initDefaultFn()
+	initFn := c.initDefaultFn()
 	dec := c.decodeLoopFn()
 	if dec == nil {
 		s.bad("roles", "-", "struct decoder not found")
 		return s.obs
 	}
-	if dt == nil {
+	if initFn == nil {
 		s.bad("struct-case:init", c.Pos(dec.Pos()), "InitDefault is never invoked in the decode closure: nested structs would not get their declared defaults")
 		return s.obs
+	}
+	// the struct case lives in the value decoder that calls the struct decoder; the init sequence may be in a helper of it
+	dt := initFn
+	for _, vd := range c.valueDecoders() {
+		if fnHasCall(vd, func(ci ssa.CallInstruction) bool { return ci.Common().StaticCallee() == dec }) {
+			dt = vd
+		}
 	}
 	var pparam ssa.Value
 	for _, prm := range dt.Params {
@@ -935,6 +942,9 @@ func ruleInitDefault(c *Ctx) []Ob {
 				}
 			case *ssa.Return:
 				nRet++
+				if len(x.Results) < 2 {
+					continue
+				}
 				ev := x.Results[1]
 				if definitelyNonNilErr(ev, b) {
 					continue
@@ -965,7 +975,24 @@ func ruleInitDefault(c *Ctx) []Ob {
 	// InitDefault invoke on the hasInitFunc edge, on the same p, before the Decode
 	var inv *ssa.Call
 	var upd *ssa.Call
-	for _, b := range dt.Blocks {
+	var hcall *ssa.Call // call of the init helper in the struct case, when the sequence is not inline
+	ipparam := pparam
+	if initFn != dt {
+		for _, b := range dt.Blocks {
+			for _, ins := range b.Instrs {
+				if call, ok := ins.(*ssa.Call); ok && call.Call.StaticCallee() == initFn {
+					hcall = call
+				}
+			}
+		}
+		ipparam = nil
+		for _, prm := range initFn.Params {
+			if isUnsafePointer(prm.Type()) {
+				ipparam = prm
+			}
+		}
+	}
+	for _, b := range initFn.Blocks {
 		for _, ins := range b.Instrs {
 			call, ok := ins.(*ssa.Call)
 			if !ok {
@@ -979,7 +1006,7 @@ func ruleInitDefault(c *Ctx) []Ob {
 			}
 		}
 	}
-	if inv == nil || upd == nil {
+	if inv == nil || upd == nil || initFn != dt && hcall == nil {
 		s.bad("struct-case:init", c.InstrPos(tail), "InitDefault is not invoked (through updateIface) before the nested struct is decoded: absent fields would not read as their declared defaults")
 	} else {
 		under := false
@@ -989,14 +1016,23 @@ func ruleInitDefault(c *Ctx) []Ob {
 			}
 		}
 		// updateIface(&localcopy, p): first arg address of a local alloc that holds a copy of t.Sd.initFunc; InitDefault invoked on that copy
-		localCopy, sameP := false, len(upd.Call.Args) == 2 && upd.Call.Args[1] == pparam
+		localCopy, sameP := false, len(upd.Call.Args) == 2 && upd.Call.Args[1] == ipparam
+		if hcall != nil {
+			passed := false
+			for _, a := range hcall.Call.Args {
+				if a == pparam {
+					passed = true
+				}
+			}
+			sameP = sameP && passed
+		}
 		var al *ssa.Alloc
 		if cv, ok := upd.Call.Args[0].(*ssa.Convert); ok {
 			al, _ = cv.X.(*ssa.Alloc)
 		}
 		if al != nil {
 			for _, r := range referrers(al) {
-				if st, ok := r.(*ssa.Store); ok && st.Addr == ssa.Value(al) && strings.HasSuffix(path(st.Val), ".Sd.initFunc") {
+				if st, ok := r.(*ssa.Store); ok && st.Addr == ssa.Value(al) && strings.HasSuffix(path(st.Val), ".initFunc") {
 					localCopy = true
 				}
 			}
@@ -1006,10 +1042,13 @@ func ruleInitDefault(c *Ctx) []Ob {
 			invOnCopy = true
 		}
 		order := instrDominates(upd, inv) && (inv.Block() == tail.Block() || blockReaches(inv.Block(), tail.Block()))
+		if hcall != nil {
+			order = instrDominates(upd, inv) && instrDominates(hcall, tail)
+		}
 		s.check(under && localCopy && sameP && invOnCopy && order, "struct-case:init", c.InstrPos(inv), "f := t.Sd.initFunc; updateIface(&f, p); f.InitDefault() under hasInitFunc, before Decode",
 			fmt.Sprintf("InitDefault sequence is wrong: under hasInitFunc %v, local copy of initFunc %v, redirected to p %v, invoked on the copy %v, before the decode %v (a shared interface value must not be rewritten: concurrent decodes would initialise each other's objects)", under, localCopy, sameP, invOnCopy, order))
 		// the decode is reached from both edges of hasInitFunc
-		if ib := inv.Block(); len(ib.Preds) == 1 {
+		if ib := inv.Block(); len(ib.Preds) == 1 && hcall == nil {
 			g := ib.Preds[0]
 			s.check(g.Dominates(tail.Block()) && !ib.Dominates(tail.Block()) || ib == tail.Block() && false || g.Dominates(tail.Block()), "struct-case:both-edges", c.InstrPos(tail), "the nested decode runs with and without an init function", "the nested decode is skipped on one edge of hasInitFunc")
 		}
